@@ -438,6 +438,27 @@ impl World {
             self.counters.add("reach.extension_emitted", 1);
         }
         let mut built = built;
+        // RFC 4884 section 7: an all-zero extension checksum means "not transmitted"; every
+        // fourth responder distance emits its extension header that way
+        if let Some(e) = built.ext_off {
+            if dist % 4 == 3 && built.bytes.len() >= e + 4 {
+                built.bytes[e + 2] = 0;
+                built.bytes[e + 3] = 0;
+                // the ICMP checksum covers the whole message
+                let io = built.icmp_off;
+                built.bytes[io + 2] = 0;
+                built.bytes[io + 3] = 0;
+                let c = match (built.v6, from, host) {
+                    (true, IpAddr::V6(f), IpAddr::V6(h)) => {
+                        let seg = &built.bytes[io..];
+                        wire::inet_checksum(&[&wire::pseudo_v6(f, h, wire::PROTO_ICMPV6, seg.len() as u32), seg])
+                    }
+                    _ => wire::inet_checksum(&[&built.bytes[io..]]),
+                };
+                built.bytes[io + 2..io + 4].copy_from_slice(&c.to_be_bytes());
+                self.counters.add("reach.extension_checksum_not_transmitted", 1);
+            }
+        }
         let mut class = RespClass::Genuine;
         if let Some(m) = self.sc.mutation {
             apply_mutation(&mut built.bytes, built.v6, built.icmp_off, built.quote_off, built.ext_off, m);
